@@ -122,8 +122,8 @@ def _wait_cls(p, ops):
 
 
 def gen_cases(rng, tier):
-    n_wait = {"quick": 520, "thorough": 8000, "search": 1200}[tier]
-    n_procs = {"quick": 130, "thorough": 1500, "search": 250}[tier]
+    n_wait = {"quick": 450, "thorough": 8000, "search": 1200}[tier]
+    n_procs = {"quick": 105, "thorough": 1500, "search": 250}[tier]
     perm_max = {"quick": 3, "thorough": 4, "search": 3}[tier]
     cases = []
     # exhaustive status decoding
@@ -536,13 +536,13 @@ def impl_run(case, coq, env):
 
 
 MANIFEST = {
-    "text": "29 theorems (Coq, exact rational virtual time, for every exit instant, timeout, process kind, exit status and EINTR placement incl. a blocking "
+    "text": "31 theorems (Coq, exact rational virtual time, for every exit instant, timeout, process kind, exit status and EINTR placement incl. a blocking "
             "waitpid interrupted at any instant): status decoding; a returned status/None is never early; TimeoutExpired(timeout, pid) only at or after the "
             "deadline, less than 40 ms late, and -- on EINTR-free schedules -- with the process alive (EINTR case refuted with a witness: known finding); "
             "k-th sleep = min(2^k/10000, 1/25), timeout=0 never sleeps, negative timeout -> ValueError; TERMINATION: with a timeout ceil(25*timeout)+12 "
             "loop steps suffice for every causal kernel, without a timeout the call returns iff the exit instant is finite, wait_procs needs at most "
             "len(procs)+ceil(timeout)+1 rounds; the cached value is returned without a kernel call; wait_procs partitions its input, sets returncode and "
-            "calls the callback exactly once per gone process and returns before timeout + 40 ms for every iteration order; POPEN (psutil.Popen wrapping subprocess.Popen; state = "
+            "calls the callback exactly once per gone process for EVERY callable whatever its truth value (callback presence is an option in the model, a falsy callable gives the same run as a truthy one) and returns before timeout + 40 ms for every iteration order; POPEN (psutil.Popen wrapping subprocess.Popen; state = "
             "subprocess-side returncode + psutil-side cache): once a status has been collected by either side, 0 included, wait() returns it at once for "
             "every kernel and timeout, along every later history, for every order of reaping (poll/communicate/__exit__ first, or psutil's wait first), and a negative timeout raises ValueError in every state "
             "(the pre-4baf627 order is kept as a legacy variant with a refuted theorem); "
